@@ -36,6 +36,10 @@ type c20File struct {
 	//   remove-all   all declarations but the import declarations go: every import is unused
 	//   rename-same  the first declared name gets another first letter: the same length
 	Kind string `json:"kind,omitempty"`
+	// NoDisk (Outside files only): the source is handed to Decorator.ParseFile, nothing is on disk under the name
+	NoDisk bool `json:"no_disk,omitempty"`
+	// At (Outside files only): decorated before the file of Syntax with this index (len = after all of them)
+	At int `json:"at,omitempty"`
 }
 
 type c20Input struct {
@@ -48,6 +52,12 @@ type c20Input struct {
 	// Again: after the first save every edited file is edited once more in this way and the package
 	// is saved a second time (not with FailPath)
 	Again string `json:"again,omitempty"`
+	// Files is the package's Syntax, in this order: the names need not be in lexical order.
+	// Outside: files decorated with the package's Decorator (so Decorator.Filenames knows them), edited
+	// or not, that are NOT in Syntax -- a file the caller took out of Syntax, a further file or a
+	// snippet parsed with the same Decorator. They are not files of the package that is saved: their
+	// bytes stay, and one that is not on disk (NoDisk) is not created.
+	Outside []c20File `json:"outside,omitempty"`
 }
 
 type failPathResolver struct {
@@ -146,13 +156,44 @@ func c20Check(c *Ctx, in c20Input) (key, what string) {
 	fset := token.NewFileSet()
 	dec := decorator.NewDecoratorWithImports(fset, "example.com/pkg", goastNew())
 	pkg := &decorator.Package{Package: &packages.Package{PkgPath: "example.com/pkg"}, Dir: root, Decorator: dec}
-	for _, f := range in.Files {
+	var outside []*dst.File
+	decorateOutside := func(at int) bool {
+		for _, f := range in.Outside {
+			if f.At != at && !(at == len(in.Files) && (f.At > at || f.At < 0)) {
+				continue
+			}
+			p := filepath.Join(root, f.Name)
+			var src interface{}
+			if f.NoDisk {
+				src = f.Src
+			} else {
+				os.MkdirAll(filepath.Dir(p), 0755)
+				os.WriteFile(p, []byte(f.Src), 0644)
+			}
+			df, err := dec.ParseFile(p, src, parser.ParseComments)
+			if err != nil {
+				return false
+			}
+			outside = append(outside, df)
+			if f.Edit {
+				c20Edit(df, f.Kind)
+			}
+		}
+		return true
+	}
+	for i, f := range in.Files {
+		if !decorateOutside(i) {
+			return "", ""
+		}
 		p := filepath.Join(root, f.Name)
 		df, err := dec.ParseFile(p, nil, parser.ParseComments)
 		if err != nil {
 			return "", ""
 		}
 		pkg.Syntax = append(pkg.Syntax, df)
+	}
+	if !decorateOutside(len(in.Files)) {
+		return "", ""
 	}
 	rounds := []bool{false}
 	if in.Again != "" && in.FailPath == "" {
@@ -275,6 +316,12 @@ func c20SaveRound(in c20Input, root string, pkg *decorator.Package) (key, what s
 			return "c20-elsewhere", api + " removed " + p
 		}
 	}
+	// files the package's Decorator knows but Syntax does not hold are not files of the package
+	for _, f := range in.Outside {
+		if !f.NoDisk && after[f.Name] != before[f.Name] {
+			return "c20-elsewhere", fmt.Sprintf("%s wrote %s (%d bytes -> %d bytes): the file was decorated with the package's Decorator (edited: %v) but is not in Package.Syntax\n%s", api, f.Name, len(before[f.Name]), len(after[f.Name]), f.Edit, firstDiff(before[f.Name], after[f.Name]))
+		}
+	}
 	if failIdx < 0 {
 		if serr != nil {
 			return "c20-error", api + " failed: " + serr.Error()
@@ -347,7 +394,7 @@ var c20EditPool = []string{
 var c20FailPaths = []string{"fmt", "os", "io", "bytes", "errors"}
 
 func c20Prop(c *Ctx) {
-	c.Res.Rule = "packages of 1-5 files drawn from a pool (imports, comments, //line directives before and after the package clause, files in sub-directories), each file edited or not; resolver failing for a package that exactly one file refers to, at every file index; every pool file alone and packages of 1-4 files under edits that make the print longer (a new declaration), shorter (the last declaration removed, all declarations removed: imports become unused) and equally long (a declared name changed), saved through SaveWithResolver or Save (when no package name needs resolving), once or twice in a row: the directory holds exactly the separately made import-managed prints, each of which parses; non-trivial = distinct (file list, edits, failing path)"
+	c.Res.Rule = "packages of 1-5 files drawn from a pool (imports, comments, //line directives before and after the package clause, files in sub-directories), each file edited or not; resolver failing for a package that exactly one file refers to, at every file index; every pool file alone and packages of 1-4 files under edits that make the print longer (a new declaration), shorter (the last declaration removed, all declarations removed: imports become unused) and equally long (a declared name changed), saved through SaveWithResolver or Save (when no package name needs resolving), once or twice in a row: the directory holds exactly the separately made import-managed prints, each of which parses; hand-built packages whose Syntax is not in the order of the file names (failure at a file that sorts after an edited file placed later in Syntax) and whose Decorator has decorated further files (edited, on disk or parsed from text) that are not in Syntax: those keep their bytes / are not created, and nothing after the failing file IN SYNTAX is written; non-trivial = distinct (file list, edits, failing path)"
 	for i := 0; i < c.N(60); i++ {
 		n := 1 + c.Rng.Intn(5)
 		perm := c.Rng.Perm(len(c20Pool))
@@ -425,6 +472,78 @@ func c20Prop(c *Ctx) {
 			in.FailPath = c20FailPaths[c.Rng.Intn(len(c20FailPaths))]
 		}
 		run(in, fmt.Sprintf("files=%d edit kinds, again=%v fail=%v", n, in.Again != "", in.FailPath != ""))
+	}
+	// hand-built packages whose Syntax is not what the Decorator's file-name table holds, in its order:
+	// Syntax in an order other than that of the file names, and files decorated with the package's
+	// Decorator (edited, on disk or not) that are not in Syntax. What is written is Syntax, in the order
+	// of Syntax: a failure at file k leaves the files after k IN SYNTAX untouched, whatever their names.
+	{
+		// a package path c20Pool[i] refers to without an alias (i < 5); which file fails is worked out from the sources
+		onlyUser := []string{"fmt", "os", "io", "bytes", "errors"}
+		// fixed: the failing file is first in Syntax and last by name, the edited file after it
+		for fi, failPath := range onlyUser {
+			for _, kind := range []string{"grow", "rename-same"} {
+				in := c20Input{FailPath: failPath, Files: []c20File{
+					{Name: "f2.go", Src: c20Pool[fi]},
+					{Name: "f0.go", Src: c20Pool[(fi+1)%5], Edit: true, Kind: kind},
+					{Name: "f1.go", Src: c20Pool[5]},
+				}}
+				run(in, "syntax out of name order, failure at the first file")
+			}
+		}
+		// fixed: an edited file of the Decorator that is not in Syntax, at each place in the decoration order
+		for at := 0; at <= 2; at++ {
+			for ki, kind := range kinds {
+				in := c20Input{Files: []c20File{{Name: "f0.go", Src: c20Pool[0]}, {Name: "f2.go", Src: c20Pool[2], Edit: ki%2 == 1, Kind: "grow"}},
+					Outside: []c20File{{Name: "f1.go", Src: c20EditPool[ki%len(c20EditPool)], Edit: true, Kind: kind, At: at}}}
+				if ki == 3 {
+					in.Outside[0].NoDisk = true
+				}
+				run(in, "a decorated file outside Syntax")
+			}
+		}
+		for i := 0; i < c.N(30); i++ {
+			n := 2 + c.Rng.Intn(3)
+			perm := c.Rng.Perm(len(pool))
+			namePerm := c.Rng.Perm(n + 2)
+			var in c20Input
+			for j := 0; j < n; j++ {
+				name := fmt.Sprintf("f%d.go", namePerm[j])
+				if c.Rng.Intn(5) == 0 {
+					name = fmt.Sprintf("sub/f%d.go", namePerm[j])
+				}
+				f := c20File{Name: name, Src: pool[perm[j]], Edit: c.Rng.Intn(2) == 0}
+				if f.Edit {
+					f.Kind = kinds[c.Rng.Intn(len(kinds))]
+				}
+				in.Files = append(in.Files, f)
+			}
+			for j := n; j < n+c.Rng.Intn(3); j++ {
+				f := c20File{Name: fmt.Sprintf("f%d.go", namePerm[j]), Src: pool[perm[j]], Edit: c.Rng.Intn(4) != 0, At: c.Rng.Intn(n + 1), NoDisk: c.Rng.Intn(4) == 0}
+				if f.Edit {
+					f.Kind = kinds[c.Rng.Intn(len(kinds))]
+				}
+				in.Outside = append(in.Outside, f)
+			}
+			switch c.Rng.Intn(3) {
+			case 0:
+				// fail for a path that a file of Syntax refers to without an alias
+				var cand []int
+				for j := 0; j < n; j++ {
+					if perm[j] < len(onlyUser) {
+						cand = append(cand, j)
+					}
+				}
+				if len(cand) > 0 {
+					in.FailPath = onlyUser[perm[cand[c.Rng.Intn(len(cand))]]]
+				} else {
+					in.FailPath = c20FailPaths[c.Rng.Intn(len(c20FailPaths))]
+				}
+			case 1:
+				in.Again = kinds[c.Rng.Intn(len(kinds))]
+			}
+			run(in, fmt.Sprintf("syntax order / outside files: files=%d outside=%d fail=%v", n, len(in.Outside), in.FailPath != ""))
+		}
 	}
 	for k, n := range c20Stats {
 		for ; n > 0; n-- {
